@@ -24,6 +24,7 @@ mod c12;
 mod c13;
 mod c14;
 mod c15;
+mod c20;
 mod sendsys;
 mod chan;
 
@@ -84,6 +85,7 @@ fn main() {
             "C13" => c13::replay(&v["replay"]),
             "C14" => c14::replay(&v["replay"]),
             "C15" => c15::replay(&v["replay"]),
+            "C20" => c20::replay(&v["replay"]),
             _ => {
                 eprintln!("no replay for {}", id);
                 std::process::exit(2);
@@ -114,6 +116,7 @@ fn main() {
             "C13" => c13::run(thorough),
             "C14" => c14::run(thorough),
             "C15" => c15::run(thorough),
+            "C20" => c20::run(thorough),
             other => {
                 eprintln!("unknown check {}", other);
                 2
